@@ -86,6 +86,7 @@ macro_rules! c07_kernel_harness {
 }
 c07_kernel_harness!(c07_kernel32_b6, 32, 8, 6);
 c07_kernel_harness!(c07_kernel64_b6, 64, 16, 6);
+c07_kernel_harness!(c07_kernel64_b4, 64, 16, 4);
 c07_kernel_harness!(c07_kernel32_b8, 32, 8, 8);
 c07_kernel_harness!(c07_kernel32_b12, 32, 8, 12);
 c07_kernel_harness!(c07_kernel32_b16, 32, 8, 16);
@@ -639,7 +640,7 @@ where
 /// parser on every text "3::" + <= T-3 arbitrary bytes.  (That the raw parser implements the
 /// grammar is decided by the C04 kernel / driver / capacity queries; that a dual hash built from
 /// a raw hash is valid and lossless by C07.)
-fn c04_dual_like_raw<const S1: usize, const S2: usize, const C1: usize, const C2: usize, const T: usize>(fixed: usize)
+fn c04_dual_like_raw<const S1: usize, const S2: usize, const C1: usize, const C2: usize, const T: usize>(fixed: usize, full: bool)
 where
     BlockHashSize<S1>: ConstrainedBlockHashSize,
     BlockHashSize<S2>: ConstrainedBlockHashSize,
@@ -651,7 +652,7 @@ where
     // n in fixed..=T; fixed == 0: everything arbitrary.
     const PREFIX: &[u8; 64] = b"ABCDEFGHIJKLMNOPQRSTUVWXYZabcdefghijklmnopqrstuvwxyz0123456789+/";
     let mut text: [u8; T] = kani::any();
-    let n = any_len(T);
+    let n = if full { T } else { any_len(T) };
     if fixed >= 3 {
         text[0] = b'3';
         text[1] = b':';
@@ -790,6 +791,28 @@ fn c04_dual_capacity_prefix_run29_t36() { c04_dual_capacity_prefix::<29, 36>(tru
 #[kani::unwind(66)]
 #[kani::stub(crate::internals::hash_dual::algorithms::compress_block_hash_with_rle, stub_compress)]
 fn c04_dual_capacity_prefix_runfree29_t36() { c04_dual_capacity_prefix::<29, 36>(false) }
+
+#[kani::proof]
+#[kani::unwind(66)]
+#[kani::stub(crate::internals::hash_dual::algorithms::compress_block_hash_with_rle, stub_compress)]
+fn c04_dual_like_raw_short_fixed40() { c04_dual_like_raw::<64, 32, 16, 8, 40>(3, true) }
+#[kani::proof]
+#[kani::unwind(66)]
+#[kani::stub(crate::internals::hash_dual::algorithms::compress_block_hash_with_rle, stub_compress)]
+fn c04_dual_like_raw_short_t40() { c04_dual_like_raw::<64, 32, 16, 8, 40>(3, false) }
+#[kani::proof]
+#[kani::unwind(66)]
+#[kani::stub(crate::internals::hash_dual::algorithms::compress_block_hash_with_rle, stub_compress)]
+fn c04_dual_like_raw_short_t12() { c04_dual_like_raw::<64, 32, 16, 8, 12>(0, false) }
+#[kani::proof]
+#[kani::unwind(66)]
+#[kani::stub(crate::internals::hash_dual::algorithms::compress_block_hash_with_rle, stub_compress)]
+fn c04_dual_like_raw_long_t12() { c04_dual_like_raw::<64, 64, 16, 16, 12>(0, false) }
+/// 62 fixed symbols + 5 arbitrary bytes: block hash 2 of the long form around its capacity
+#[kani::proof]
+#[kani::unwind(90)]
+#[kani::stub(crate::internals::hash_dual::algorithms::compress_block_hash_with_rle, stub_compress)]
+fn c04_dual_like_raw_long_cap64() { c04_dual_like_raw::<64, 64, 16, 16, 70>(65, true) }
 
 #[kani::proof]
 #[kani::unwind(66)]
